@@ -497,7 +497,7 @@ Lemma rd_common_first_packet_not_metadata : forall h, RelD (common_first_packet_
 Proof. intros. reld. Qed.
 #[local] Hint Resolve rd_common_first_packet_not_metadata : rel.
 
-Lemma rd_handle_eof_without_previous_metadata : forall ck sz, RelD (handle_eof_without_previous_metadata ck sz).
+Lemma rd_handle_eof_without_previous_metadata : forall c ck sz, RelD (handle_eof_without_previous_metadata c ck sz).
 Proof. intros. reld. Qed.
 #[local] Hint Resolve rd_handle_eof_without_previous_metadata : rel.
 
